@@ -11,6 +11,10 @@ class Expression:
     is_reference = False
     is_tagged = True
 
+    # True for expressions that compile to a "yield", which asks the parser
+    # loop to call another rule.
+    uses_yield = False
+
     def always_succeeds(self):
         return False
 
@@ -25,7 +29,14 @@ class Expression:
     def compile(self, out, flags):
         if not out.has_available_blocks(self.num_blocks):
             func, params = self.functionalize(out, flags, is_generator=False)
-            out += (STATUS, RESULT, POS) << func(*params)
+            call = func(*params)
+
+            # If the expression calls other rules, then the helper function is
+            # a generator, and we have to delegate to it.
+            if self._contains_yield():
+                call = Code('(yield from ', call, ')')
+
+            out += (STATUS, RESULT, POS) << call
             return
 
         if self.is_tagged:
@@ -76,6 +87,17 @@ class Expression:
         counter = SymbolCounter()
         visit(self, counter.previsit, counter.postvisit)
         return counter.freevars
+
+    def _contains_yield(self):
+        found = []
+
+        def check(node):
+            # Literals skip ignored input by calling the "_ignored" rule.
+            if node.uses_yield or getattr(node, 'skip_ignored', False):
+                found.append(node)
+
+        visit(self, check)
+        return bool(found)
 
 
 def visit(expr, previsitor, postvisitor=None):
